@@ -110,7 +110,16 @@ EX = [
     T('X5', 'Lb', 2, [add(lam(0, app(var(0), var(1)))), add(var(1)), union(lam(0, app(var(0), var(1))), var(1)), extract(lam(0, app(var(0), var(1)))), extract(app(var(0), var(1)))], note='cyclic class under a binder: x = lam a. app(a, x)'),
 ]
 for _t in EX: _t.light = True
-QUICK = QUICK + RW + EX
+# --- analyses without a modify hook (min size, depth): data after every operation
+def _an(name, ops, note, nn=3):
+    return [T(name + '-' + a, 'Lb', nn, ops, analysis=a, note=note + ' [analysis %s]' % a) for a in ('MinSize', 'Depth')]
+AN = (_an('A1', [add(app(var(0), var(1))), add(var(2)), union(app(var(0), var(1)), var(2))], 'datum of a merged class is the join of both sides')
+      + _an('A2', [add(u(u(app(var(0), var(1))))), add(var(2)), union(app(var(0), var(1)), var(2))], 'the surviving class improves and has a parent chain: parents and grandparents must be re-analysed')
+      + _an('A3', [add(u(u(app(var(0), var(1))))), add(u(var(2))), add(app(var(2), var(2))), add(lam(2, var(2))), union(var(2), app(var(0), var(1)))],
+            'the deprecated (smaller) class improves; its parent chain does not become congruent to existing nodes'))
+AN = AN + _an('A4', [add(u(u(app(var(0), var(0))))), add(var(1)), union(var(1), app(var(0), var(0)))], 'a lone leaf is merged into a class with the same slot count that has parents: the SURVIVING class improves', nn=2)
+for _t in AN: _t.light = True
+QUICK = QUICK + RW + EX + AN
 QUICK = _with_groups(QUICK, {'T1': ('rev',), 'T3': ('rev',), 'T4': ('flip',), 'B2': ('flip',), 'B5': ('rev',), 'TH2': ('rev',)})
 
 THOROUGH = []
